@@ -16,7 +16,9 @@ RULE = ("one driver thread (Run, or k x Step(T)) and 1-4 user threads, each a ra
 ASSUMPTIONS = ["A-MUTEX/A-SC: pthread mutexes are mutexes; code between two sync points is atomic w.r.t. other library threads "
                "(the scheduler runs one thread at a time); races below lock granularity are looked for by the real-thread TSan run only",
                "std::atomic<bool> accesses are placed at the marker of the API call they belong to (same uninterrupted segment)"]
-TRUSTED = ["harness/sched (cooperative scheduler, interposition of pthread_mutex_*, poll, sendto, recvfrom, CLOCK_MONOTONIC)"]
+TRUSTED = ["harness/sched (cooperative scheduler, interposition of pthread_mutex_*, poll, sendto, recvfrom, CLOCK_MONOTONIC)",
+           "Drive/C04.lean toEv (parsing of trace lines into the typed observations of Spec/C04.lean); the predicate itself is not trusted: "
+           "spec_holds_on_model proves it accepts every trace of the model"]
 ALL_TAGS = ["contended", "uncontended", "handler", "task", "close", "cancel", "shift", "stop", "run-exit", "dpoll"]
 EXHAUSTIVE = {}
 SHRINK = False  # removing threads/actions changes the scenario (e.g. drops the stopper); the replay is ops + schedule
@@ -43,7 +45,8 @@ def gen(rng, tier):
     return cases
 
 
-TECHNIQUE = "Lean 4 inductive invariant over a lock-protocol LTS with unboundedly many user threads + sound trace validation of scheduled real executions"
+TECHNIQUE = ("Lean 4 inductive invariant over a lock-protocol LTS with unboundedly many user threads + sound trace validation of scheduled real "
+             "executions; the run-time oracle (Spec/C04.lean) is proved to accept every trace of the model (simulation relation, induction over the history)")
 LEVEL_TEXT = ("Machine-checked: an inductive invariant (ownership of stepMtx/pauseMtx, no-lost-wake-up, stop-seen) over the labelled "
               "transition system of StepGuard/PauseGuard/Bump/Unbump/Run/Stop for ONE driver thread and ANY number of user threads with "
               "arbitrary programs; from it: at most one thread is in a step-protected region and it owns stepMtx (handlers, tasks and "
@@ -55,7 +58,14 @@ LEVEL_TEXT = ("Machine-checked: an inductive invariant (ownership of stepMtx/pau
               "operation that re-schedules an existing ToDo, occurs in the continuation or in a task body). The executable validator is proved sound (accepted traces are Tr-paths inside Reach). "
               "Tied to /repo by running the real library threads under a deterministic scheduler and requiring every lock/poll/pipe event "
               "to be a transition of the model with identical mutex ownership, plus direct checks of the property on the trace "
-              "(no overlap, handler on driver thread holding stepMtx, nothing after destructor/Cancel returned).")
+              "(no overlap, handler on driver thread holding stepMtx, nothing after destructor/Cancel returned). "
+              "These direct checks are the predicate of Spec/C04.lean (typed observations Locks.Spec.Obs, total functions specStep/specRun = the "
+              "monitors stepA (C04), stepB (C05), stepC (C08); the driver only parses lines and calls them), and theorem spec_holds_on_model "
+              "(= Locks.Spec.model_satisfies_spec, no hypothesis) proves that this very predicate accepts every trace of the model: the unchanged "
+              "lock LTS composed with the handler/task in progress, registered sockets, listed ToDos and recursive acquisitions of stepMtx, for "
+              "every history of LTS transitions of any number of threads, returning management calls (attach/close/cancel/shift/create), "
+              "handler and task invocations inside a step and management calls from inside them - so a spec verdict on the implementation is a "
+              "difference between implementation and model, and the oracle is never stricter than the model.")
 LEVEL_NOTE = ("Trusted: Lean kernel; axioms propext/Quot.sound/Classical.choice; the LTS as a description of the code's sync skeleton "
               "(validated on scheduled executions only); the scheduler. 'Without data races or memory errors' below lock granularity is NOT "
               "proved: the ASan build of the scheduled runs and a real-thread run look for them (testing, labelled as such).")
